@@ -46,7 +46,7 @@ def touched : Op → List Show
   | .linsertl v _ | .lappendl v | .lprependl v | .lswap v | .lcopy v | .lassign v => [.l v, .l (1 - v)]
   | .leq _ _ | .aeq _ _ => []
   | .lappendself v | .lprependself v | .linsertself v _ | .lassignself v => [.l v]
-  | .aappendself v | .aappendref v _ | .aresizeref v _ _ | .aassignself v => [.a v]
+  | .aappendself v | .aappendref v _ | .aresizeref v _ _ | .aassignself v | .aappendsub v _ _ => [.a v]
   | .lappend v _ | .lprepend v _ | .linsert v _ _ | .lremove v _ | .lremovev v _ | .lremoveFront v
   | .lremoveBack v | .lclear v | .lfind v _ | .lfront v | .lback v | .lsort v => [.l v]
   | .pswap v => [.p v, .p (1 - v)]
@@ -119,6 +119,7 @@ def parseOp (ws : List String) : Option Op :=
   | ["aappendref", v, i] => do pure (.aappendref (← v.toNat?) (← i.toNat?))
   | ["aresizeref", v, n, i] => do pure (.aresizeref (← v.toNat?) (← n.toNat?) (← i.toNat?))
   | ["aassignself", v] => do pure (.aassignself (← v.toNat?))
+  | ["aappendsub", v, i, n] => do pure (.aappendsub (← v.toNat?) (← i.toNat?) (← n.toNat?))
   | _ => none
 
 /-! The pointer-level model (PtrModel.lean) of the two List and the two PoolList variables is run in lockstep: every op is
